@@ -146,10 +146,7 @@ pub struct OutboundHTLCOutput { pub htlc_id: u64, pub amount_msat: u64, pub paym
         let __kept = { $body };
         (__kept, value_to_self_msat_diff)
     }
-//@rw R16
-    if let &InboundHTLCState::LocalRemoved(ref reason) = &htlc.state
-//@with
-    if let InboundHTLCState::LocalRemoved(reason) = &htlc.state
+//@r16
 //@rw R16 ?
     if let &InboundHTLCRemovalReason::Fulfill { .. } = reason
 //@with
@@ -176,10 +173,7 @@ pub struct OutboundHTLCOutput { pub htlc_id: u64, pub amount_msat: u64, pub paym
         let __kept = { $body };
         (__kept, value_to_self_msat_diff)
     }
-//@rw R16
-    if let &OutboundHTLCState::AwaitingRemovedRemoteRevoke(ref outcome) = &htlc.state
-//@with
-    if let OutboundHTLCState::AwaitingRemovedRemoteRevoke(outcome) = &htlc.state
+//@r16
 //@rw R8
     hold_time_since(htlc.send_timestamp).map(|hold_time| { reason.set_hold_time(hold_time); });
 //@with
@@ -315,10 +309,7 @@ impl Clone for InboundHTLCResolution { #[verifier::external_body] fn clone(&self
         $body
         need_commitment
     }
-//@rw R16
-    if let &InboundHTLCState::RemoteAnnounced(ref htlc_resolution) = &htlc.state
-//@with
-    if let InboundHTLCState::RemoteAnnounced(htlc_resolution) = &htlc.state
+//@r16
 //@ret r
 //@ensures P C01 a-commitment_signed-moves-exactly-the-htlcs-the-peer-had-announced-one-step-on-and-asks-for-our-own-commitment-in-return
     old(htlc).state is RemoteAnnounced ==> final(htlc).state == InboundHTLCState::AwaitingRemoteRevokeToAnnounce(old(htlc).state->RemoteAnnounced_0) && r,
